@@ -546,5 +546,6 @@ LEVEL_NOTE = ('Trusted: the regular expressions in this file (reference), '
               'gpg --decrypt as the authority on the authenticated '
               'cleartext, refmanifest.')
 TECHNIQUE = ('bounded-exhaustive enumeration of line-class sequences '
-             'against a regular-language reference, plus differential '
-             'mutation testing against gpg (Hypothesis)')
+             'against a regular-language reference, differential mutation '
+             'testing against gpg (Hypothesis), coverage-guided fuzzing '
+             '(atheris) of the framework invariants')
